@@ -101,7 +101,8 @@ Definition QM3 := (QV3 * QV3 * QV3)%type.
 Definition qx (v : QV3) : Q := fst (fst v).
 Definition qy (v : QV3) : Q := snd (fst v).
 Definition qz (v : QV3) : Q := snd v.
-Definition qdot (a b : QV3) : Q := (qx a * qx b + qy a * qy b + qz a * qz b)%Q.
+(* Qred keeps the dyadic numbers small while the model runs (it does not change the value) *)
+Definition qdot (a b : QV3) : Q := Qred (qx a * qx b + qy a * qy b + qz a * qz b)%Q.
 Definition qadd (a b : QV3) : QV3 := (qx a + qx b, qy a + qy b, qz a + qz b)%Q.
 Definition qsub (a b : QV3) : QV3 := (qx a - qx b, qy a - qy b, qz a - qz b)%Q.
 Definition qapply (A : QM3) (v : QV3) : QV3 := (qdot (fst (fst A)) v, qdot (snd (fst A)) v, qdot (snd A) v).
